@@ -407,7 +407,7 @@ def queue_rules(R, P):
                 "an exit is reached in state %s: the element stays appended although the push reported failure (or is never sifted)" % sorted(bad))
         # failure value on the rollback path
         for r in f.returns():
-            v = RU.uncast(f, r.node["a"][0])
+            v = RU.origin(f, r.node["a"][0])  # (through the result variable of an expanded back-out helper)
             if any(ev_dominates(f, p, r, dom) for p in pops):
                 R.check(f.is_const(v) == -1, "ROLLBACK", "push:rollback-returns-error", where(f, r), "rollback path returns AWS_OP_ERR")
         # lazily created handle array: zeroed before use
